@@ -150,6 +150,30 @@ Theorem C08_send_serialised :
 Proof. exact send_serialised_now. Qed.
 Print Assumptions C08_send_serialised.
 
+(* Tighter than mere presence, with the extractor kinds that exist (source text of call arguments and of
+   assignments): one Lock call and one Unlock call; allowNonce and newTx are applied to the [nonce] that
+   getNonce returned (a window test moved to the local counter changes this text); Send writes c.nonce only
+   by ++, getNonce only with the node's PendingNonceAt answer (a reset "c.nonce = 0" changes this table).
+   Position of Lock and the defer: C08_send_lock_first below; the order of the later statements is not pinned. *)
+Theorem C08_send_source_shape :
+  Generated.c08_send_lock_calls = [[]] /\ Generated.c08_send_unlock_calls = [[]] /\
+  Generated.c08_send_getnonce_args = [[bos "ctx"]] /\
+  Generated.c08_send_allow_args = [[bos "nonce"]] /\
+  Generated.c08_send_newtx_args = [[bos "ctx"; bos "tx"; bos "nonce"]] /\
+  Generated.c08_send_nonce_writes = [bos "++"] /\
+  Generated.c08_getnonce_nonce_writes = [bos "accountNonce"; bos "accountNonce"] /\
+  Generated.c08_getnonce_pending_args = [[bos "ctx"; bos "c.owner"]].
+Proof. exact send_source_shape_now. Qed.
+Print Assumptions C08_send_source_shape.
+
+(* The first two statements of Send are "c.mtx.Lock()" and "defer c.mtx.Unlock()", and that is its only
+   deferred call: every external call of a Send lies inside the critical section. *)
+Theorem C08_send_lock_first :
+  Generated.c08_send_top_stmts = [bos "c.mtx.Lock()"; bos "defer c.mtx.Unlock()"] /\
+  Generated.c08_send_defers = [bos "c.mtx.Unlock()"].
+Proof. exact send_lock_first_now. Qed.
+Print Assumptions C08_send_lock_first.
+
 (* The boolean checker the harness evaluates on every observed history (clauses nonce-reuse,
    below-pending, skipped, failure-consumed, window) never fires on a history of the model. *)
 Theorem C08_checker_silent_on_model : forall ops,
